@@ -194,7 +194,7 @@ func c04Compare(R, before, after map[string]string, atomicOp bool, rewrites stri
 }
 
 func runC04(c *vlib.Ctx) {
-	names := []string{"repo", "kv", "labelmap", "annotation", "neuronjson", "delete", "ids", "roi", "imageblk", "sync"}
+	names := []string{"repo", "kv", "labelmap", "annotation", "neuronjson", "delete", "ids", "roi", "imageblk", "sync", "tworepos"}
 	ws := wlWorkloads()
 	refs := make([]*c04Ref, len(names))
 	vlib.Par(len(names), 8, func(i int) { refs[i] = c04Reference(c, names[i]) })
